@@ -31,6 +31,7 @@ type Op struct {
 type Case struct {
 	Mode       string `json:"mode"` // Forward | PackedForward | CompressedPackedForward | Datadog
 	Tag        string `json:"tag"`
+	Noise      bool   `json:"noise,omitempty"` // payloads are incompressible pseudo-random text instead of a repeating alphabet
 	MaxBytes   int    `json:"maxBytes"`   // Forward modes: chunk byte limit (0 = production 7 MiB)
 	MaxRecords int    `json:"maxRecords"` // Forward modes: record limit (0 = unlimited, production)
 	Ops        []Op   `json:"ops"`
@@ -44,11 +45,24 @@ const (
 
 func payload(idx, size int) []byte {
 	b := make([]byte, size)
+	if noise {
+		// incompressible: the compressed mode must produce large messages too
+		x := uint64(idx)*0x9E3779B97F4A7C15 + 0x1234567
+		for i := range b {
+			x ^= x << 13
+			x ^= x >> 7
+			x ^= x << 17
+			b[i] = byte('!' + (x>>32)%90)
+		}
+		return b
+	}
 	for i := range b {
 		b[i] = byte('a' + (idx+i)%26)
 	}
 	return b
 }
+
+var noise bool // set from Case.Noise for the duration of a case
 
 func newMaker(c Case) (base.LogChunkMaker, bconfig.LogOutputConfig) {
 	if c.Mode == "Datadog" {
@@ -68,6 +82,8 @@ func newMaker(c Case) (base.LogChunkMaker, bconfig.LogOutputConfig) {
 
 func run(c Case) vh.Result {
 	res := vh.Result{}
+	noise = c.Noise
+	defer func() { noise = false }()
 	maxBytes, maxRecords := c.MaxBytes, c.MaxRecords
 	if c.Mode == "Datadog" {
 		maxBytes, maxRecords = ddMaxBytes, ddMaxRecords
@@ -160,6 +176,9 @@ func run(c Case) vh.Result {
 	res.Classes = append(res.Classes, "mode-"+c.Mode)
 	if c.Mode != "Datadog" && c.MaxBytes == 0 {
 		res.Classes = append(res.Classes, "production-limits")
+	}
+	if c.Noise {
+		res.Classes = append(res.Classes, "chunk-beyond-1MiB-between-small-ones")
 	}
 
 	// decode every chunk
@@ -280,6 +299,23 @@ func gen(t *rapid.T) Case {
 			nops = rapid.IntRange(8, 30).Draw(t, "ddN")
 			unit = 600000
 		}
+	} else if rapid.IntRange(0, 24).Draw(t, "bigThenSmall") == 0 {
+		// a chunk larger than the 1 MiB initial capacity of the encoder's buffers, between small ones
+		c.Noise = true
+		c.MaxBytes = rapid.SampledFrom([]int{0, 3 << 20}).Draw(t, "bigLimit")
+		for i := rapid.IntRange(0, 3).Draw(t, "pre"); i > 0; i-- {
+			c.Ops = append(c.Ops, Op{Size: rapid.IntRange(0, 300).Draw(t, "small")})
+		}
+		c.Ops = append(c.Ops, Op{Flush: rapid.Bool().Draw(t, "flushBefore")})
+		for i := rapid.IntRange(3, 8).Draw(t, "nbig"); i > 0; i-- {
+			c.Ops = append(c.Ops, Op{Size: rapid.IntRange(150000, 600000).Draw(t, "bigSize")})
+		}
+		c.Ops = append(c.Ops, Op{Flush: true})
+		for i := rapid.IntRange(1, 4).Draw(t, "post"); i > 0; i-- {
+			c.Ops = append(c.Ops, Op{Size: rapid.IntRange(0, 300).Draw(t, "small")}, Op{Flush: rapid.Bool().Draw(t, "flushAfter")})
+		}
+		c.Ops = append(c.Ops, Op{Flush: true})
+		return c
 	} else {
 		prod := vh.Tier == "thorough" && rapid.IntRange(0, 9).Draw(t, "prod") == 7
 		if prod {
@@ -312,6 +348,15 @@ func gen(t *rapid.T) Case {
 // enumBoundaries: for each Forward mode and limit, two records whose sizes sum to limit-2..limit+2, and record limits 1..4 with 0..6 records.
 func enumBoundaries(yield func(Case) bool) {
 	for _, mode := range []string{"Forward", "PackedForward", "CompressedPackedForward"} {
+		// two small chunks, one of about 2 MiB (beyond the encoder's initial buffer capacity), three small ones
+		big := Case{Mode: mode, Tag: "t.big", Noise: true, Ops: []Op{{Size: 10}, {Flush: true}, {Size: 20}, {Flush: true}}}
+		for i := 0; i < 5; i++ {
+			big.Ops = append(big.Ops, Op{Size: 420000})
+		}
+		big.Ops = append(big.Ops, Op{Flush: true}, Op{Size: 30}, Op{Flush: true}, Op{Size: 40}, Op{Size: 50}, Op{Flush: true}, Op{Size: 60}, Op{Flush: true})
+		if !yield(big) {
+			return
+		}
 		for _, limit := range []int{100, 300} {
 			for first := 0; first <= 60; first += 7 {
 				for d := -3; d <= 3; d++ {
